@@ -908,7 +908,7 @@ func c12emit(c *Ctx, d c12desc, res c12result, shared bool) {
 	counter := atomic.LoadInt64(&rec.counter)
 	rec.mu.Unlock()
 	id := c.NewID()
-	term := fmt.Sprintf("mkCase %s %s %s %d %s true", CoqNat(id), CoqList(res.threads), CoqList(tr), counter, CoqNat(maxocc))
+	term := fmt.Sprintf("mkCase %d %s %s %d %s true", id, CoqList(res.threads), CoqList(tr), counter, CoqNat(maxocc))
 	c.Dist["mode_"+d.Mode]++
 	c.Dist[fmt.Sprintf("threads_%02d", len(res.threads))]++
 	if len(tr) > 0 {
